@@ -12,6 +12,8 @@ import numpy as np
 
 from vmon.core import to_numpy, digest
 
+TECHNIQUE = ('runtime monitoring: postconditions (manifold membership from the statement) on all 18 functional maps and on forward() of every manifold Module, relational monitors (Module.forward == functional(theta), batched == per-sample), driven over the complete option lattice and by L-BFGS drivers')
+LEVEL_TEXT = ("Exploration by runtime monitoring: every call of a trivialization map made by the workloads (complete option lattice x dtypes x backends x batch shapes x theta scales, structured thetas, optimizer trajectories, and in the thorough tier the repository's own manifold tests) is judged against the manifold's defining constraints with conditioning-aware tolerances; ill-conditioned cases are counted inconclusive. Held on the executions observed, not a proof over all theta.")
 RULE = ('cases = (map or Module class, method option, field, dtype, backend, dim, rank, batch shape, theta scale, structure): the full '
         'option lattice for dims 2..4 (quick) / 2..6 (thorough), all ranks, batch shapes (),(1,),(k,),(k,l), theta = scale*N(0,1) with scale '
         'in {0.3,3,30,100} (Cholesky-L capped at 10) plus structured thetas; plus optimizer-driven thetas (L-BFGS trajectories of the '
